@@ -389,6 +389,7 @@ def run(pid, args, seed, work, t0):
         broken_before = list(broken)
         ctx.thorough = True
         ctx.exhaustive_versions = False
+        ctx.sweep = False
         if advisory and reg['lanes'] and prep['driver_ok']:
             try:
                 ctx.generated = gen_json
@@ -457,6 +458,7 @@ def run(pid, args, seed, work, t0):
             'oracles': [r.summary() for r in results],
             'broken_obligations': broken,
             'advisory_shape_obligations': advisory,
+            'intensified': bool((changed_fns or advisory) and args.tier == 'quick'),
             'exhaustive': pid in ('C14', 'C17'),
             'mined_literals': len(literals),
             'changed_functions_vs_baseline': changed_fns,
